@@ -29,7 +29,8 @@ CONSTANTS
     DeniedKeepsState, \* mutant FALSE: a request refused by the SOURCE check leaves its (already raised) target in the record
     GenericDeniesSlashable, \* mutant FALSE: generic endpoint signs attester/proposer domains
     AttestChecksDomain,     \* mutant FALSE: attestation/proposal endpoints accept any domain
-    ExitIPCheck             \* mutant FALSE: voluntary exits signed for any source address
+    ExitIPCheck             \* "exact" (shipped: the source address must EQUAL an entry of the administrator list) | "none" (mutant: voluntary
+                            \* exits signed for any source address) | "prefix" (mutant: an entry that is a textual prefix of the address suffices)
 
 E == 0 .. (2 * MaxI + 1)
 Stored == (0 - MaxI - 1) .. MaxI          \* int64 values that can be on disk
@@ -67,10 +68,12 @@ PropVerdict(ps, slot, dom) == IF PropApproved(ps, slot, dom) THEN "APPROVED" ELS
 PropNext(ps, slot, dom) == IF PropApproved(ps, slot, dom) THEN ToI64(slot) ELSE ps
 
 (* ---- generic signing ----------------------------------------------------- *)
-\* ip in {"none", "listed", "unlisted"} relative to the configured administrator list
+\* ip in IPClasses relative to the configured administrator list: "near" = an address that is NOT listed but whose text begins with
+\* a listed entry (10.0.0.10 next to 10.0.0.1) or differs from one in a single character
+IPClasses == {"none", "listed", "unlisted", "near"}
 GenericApproved(dom, ip) ==
     /\ (GenericDeniesSlashable => dom \notin {"att", "prop"})
-    /\ ((ExitIPCheck /\ dom = "exit") => ip = "listed")
+    /\ ((ExitIPCheck # "none" /\ dom = "exit") => (ip = "listed" \/ (ExitIPCheck = "prefix" /\ ip = "near")))
 
 \* Message SHAPE: data root and domain are 32 bytes each.  "shiftK:cls" stands for a request whose data is K bytes short and whose
 \* domain is K bytes long, the last 32 bytes of data||domain being a domain of class cls (the boundary between the two fields moved):
